@@ -82,8 +82,16 @@ pub fn child_main() {
             let gate = Arc::clone(&gate);
             std::thread::spawn(move || {
                 gate.fetch_add(1, Ordering::SeqCst);
+                // spin briefly, then yield: on a loaded machine 16 spinning threads per process would starve
+                // the threads that have not arrived yet
+                let mut spins = 0u32;
                 while gate.load(Ordering::SeqCst) < n {
-                    std::hint::spin_loop();
+                    spins += 1;
+                    if spins < 2_000 {
+                        std::hint::spin_loop();
+                    } else {
+                        std::thread::yield_now();
+                    }
                 }
                 ops.iter().map(run_op).collect::<Vec<Value>>()
             })
